@@ -228,7 +228,7 @@ def check(model: Model, run: Run) -> None:
     _r4_once(model, run, runf)
 
     # ------------------------------------------------------------------ R5
-    run.rule('C10.R5', 'every registered message type is handled or refused in ESTABLISHED: UPDATE and ROUTE-REFRESH have handlers, KEEPALIVE feeds the timer, NOTIFICATION is raised by read_message, anything else (OPEN) must be refused with 5/3', floor=5)
+    run.rule('C10.R5', 'every registered message type is handled or refused in ESTABLISHED: UPDATE and ROUTE-REFRESH have handlers, KEEPALIVE feeds the timer, NOTIFICATION is raised by read_message, anything else (OPEN) must be refused with 5/3', floor=3)
     _r5_types(model, run, folder)
 
 
